@@ -61,6 +61,57 @@ Section Future.
   (** outcome of the loop inside Join's / After's poll function *)
   Inductive loop_out := LErr (e : err) | LAllOk | LNotYet.
 
+  (** [f.Poll()] given the closure-invocation function [inv] *)
+  Definition poll_with (inv : clo -> S -> clo * option result * S) (f : fut) (s : S) : fut * S :=
+    match f with
+    | Ready r => (Ready r, s)
+    | Pending c0 =>
+        let '(c1, r, s1) := inv c0 s in
+        (match r with Some x => Ready x | None => Pending c1 end, s1)
+    end.
+
+  (** the loop of Join's poll function (future.go:226-239): [f := &fs[i]; f.Poll(); …] *)
+  Definition join_loop (inv : clo -> S -> clo * option result * S) :=
+    fix go (l : list fut) (i : nat) (res : list gval) (ok : bool) (s : S) {struct l}
+      : list fut * list gval * loop_out * S :=
+      match l with
+      | [] => ([], res, if ok then LAllOk else LNotYet, s)
+      | f :: tl =>
+          let '(f1, s1) := poll_with inv f s in
+          match f1 with
+          | Ready (RErr e) => (f1 :: tl, res, LErr e, s1)        (* early return *)
+          | Ready (ROk v) =>
+              let '(tl1, res1, o, s2) := go tl (Datatypes.S i) (set_nth i v res) ok s1 in
+              (f1 :: tl1, res1, o, s2)
+          | Pending _ =>
+              let '(tl1, res1, o, s2) := go tl (Datatypes.S i) res false s1 in
+              (f1 :: tl1, res1, o, s2)
+          end
+      end.
+
+  (** the loop of After's poll function (future.go:275-286).  Repaired: [f := &fs[i]; f.Poll()].
+      Pinned: [for _, f := range fs { f.Poll() … }] — f is a COPY of fs[i]; Poll() updates the
+      copy, the slice element stays not-ready (while its closure's heap state has moved on). *)
+  Definition after_loop (inv : clo -> S -> clo * option result * S) :=
+    fix go (l : list fut) (ok : bool) (s : S) {struct l} : list fut * loop_out * S :=
+      match l with
+      | [] => ([], if ok then LAllOk else LNotYet, s)
+      | f :: tl =>
+          let '(copy, kept, s1) :=
+            match f with
+            | Ready r => (Ready r, Ready r, s)
+            | Pending c0 =>
+                let '(c1, r, s1) := inv c0 s in
+                let polled := match r with Some x => Ready x | None => Pending c1 end in
+                (polled, if after_ptr then polled else Pending c1, s1)
+            end in
+          match copy with
+          | Ready (RErr e) => (kept :: tl, LErr e, s1)
+          | Ready (ROk _) => let '(tl1, o, s2) := go tl ok s1 in (kept :: tl1, o, s2)
+          | Pending _ => let '(tl1, o, s2) := go tl false s1 in (kept :: tl1, o, s2)
+          end
+      end.
+
   (** [invoke c s] = calling the closure [c()]: new heap state of the closure, [Some r] when it
       answered [(r, true)], the caller's state after the callbacks that ran. *)
   Fixpoint invoke (c : clo) (s : S) {struct c} : clo * option result * S :=
@@ -122,59 +173,14 @@ Section Future.
             end
         end
     | CJoin fs results =>
-        let '(fs1, res1, o, s1) :=
-          (fix go (l : list fut) (i : nat) (res : list gval) (ok : bool) (s : S) {struct l}
-             : list fut * list gval * loop_out * S :=
-             match l with
-             | [] => ([], res, if ok then LAllOk else LNotYet, s)
-             | f :: tl =>
-                 (* f := &fs[i]; f.Poll() *)
-                 let '(f1, s1) :=
-                   match f with
-                   | Ready r => (Ready r, s)
-                   | Pending c0 =>
-                       let '(c1, r, s1) := invoke c0 s in
-                       (match r with Some x => Ready x | None => Pending c1 end, s1)
-                   end in
-                 match f1 with
-                 | Ready (RErr e) => (f1 :: tl, res, LErr e, s1)        (* early return *)
-                 | Ready (ROk v) =>
-                     let '(tl1, res1, o, s2) := go tl (Datatypes.S i) (set_nth i v res) ok s1 in
-                     (f1 :: tl1, res1, o, s2)
-                 | Pending _ =>
-                     let '(tl1, res1, o, s2) := go tl (Datatypes.S i) res false s1 in
-                     (f1 :: tl1, res1, o, s2)
-                 end
-             end) fs 0 results true s in
+        let '(fs1, res1, o, s1) := join_loop invoke fs 0 results true s in
         match o with
         | LErr e => (CJoin fs1 res1, Some (RErr e), s1)
         | LAllOk => (CJoin fs1 res1, Some (ROk (GList res1)), s1)
         | LNotYet => (CJoin fs1 res1, None, s1)
         end
     | CAfter fs =>
-        let '(fs1, o, s1) :=
-          (fix go (l : list fut) (ok : bool) (s : S) {struct l} : list fut * loop_out * S :=
-             match l with
-             | [] => ([], if ok then LAllOk else LNotYet, s)
-             | f :: tl =>
-                 (* repaired: f := &fs[i]; f.Poll().  Pinned: f is a COPY of fs[i]; Poll() updates
-                    the copy, the slice element stays not-ready (its closure's heap state moved on). *)
-                 let '(copy, kept, s1) :=
-                   match f with
-                   | Ready r => (Ready r, Ready r, s)
-                   | Pending c0 =>
-                       let '(c1, r, s1) := invoke c0 s in
-                       let polled := match r with Some x => Ready x | None => Pending c1 end in
-                       (polled, if after_ptr then polled else Pending c1, s1)
-                   end in
-                 match copy with
-                 | Ready (RErr e) => (kept :: tl, LErr e, s1)
-                 | Ready (ROk _) =>
-                     let '(tl1, o, s2) := go tl ok s1 in (kept :: tl1, o, s2)
-                 | Pending _ =>
-                     let '(tl1, o, s2) := go tl false s1 in (kept :: tl1, o, s2)
-                 end
-             end) fs true s in
+        let '(fs1, o, s1) := after_loop invoke fs true s in
         match o with
         | LErr e => (CAfter fs1, Some (RErr e), s1)
         | LAllOk => (CAfter fs1, Some (ROk GUnit), s1)
@@ -183,13 +189,7 @@ Section Future.
     end.
 
   (** the pointer method [Poll]: through a pointer, so the struct caches the answer. *)
-  Definition poll (f : fut) (s : S) : fut * S :=
-    match f with
-    | Ready r => (Ready r, s)
-    | Pending c =>
-        let '(c1, r, s1) := invoke c s in
-        (match r with Some x => Ready x | None => Pending c1 end, s1)
-    end.
+  Definition poll (f : fut) (s : S) : fut * S := poll_with invoke f s.
 
   (** ** The constructors (the exported functions of future.go) *)
   Definition New (p : S -> option result * S) : fut := Pending (CNew p).
@@ -283,4 +283,7 @@ Arguments Then {S}.
 Arguments Join {S}.
 Arguments After {S}.
 Arguments invoke {S}.
+Arguments poll_with {S}.
+Arguments join_loop {S}.
+Arguments after_loop {S}.
 Arguments poll {S}.
